@@ -191,7 +191,7 @@ theorem endFailuresReported_once (f : Faults) (b : Body) : endFailuresReported (
   generalize (runBody b).1 = evs at *
   generalize (runBody b).2 = out at *
   cases f.begin <;> cases out <;> cases f.commit <;> cases f.rollback <;> cases f.rollbackPanics <;>
-    cases f.commitPanics <;> simp [h1, h2, Err.of, Err.mentions]
+    cases f.commitPanics <;> simp [h1, h2, Err.of]
 
 theorem bodyErrorReported_once (f : Faults) (b : Body) : bodyErrorReported (transactOnce f b) = true := by
   unfold transactOnce bodyErrorReported reports
@@ -239,6 +239,12 @@ theorem filter_badPrefix (p : Ev → Bool) (hp : p .beginBad = false) (n : Nat) 
   induction n with
   | zero => rfl
   | succ n ih => simp [badPrefix, hp, ih]
+
+theorem count_bad_badPrefix (n : Nat) (l : List Ev) :
+    (List.filter isBeginBad (badPrefix n l)).length = n + (List.filter isBeginBad l).length := by
+  induction n with
+  | zero => simp [badPrefix]
+  | succ n ih => simp [badPrefix, List.filter_cons, ih]; omega
 
 theorem any_badPrefix (p : Ev → Bool) (hp : p .beginBad = false) (n : Nat) (l : List Ev) :
     (badPrefix n l).any p = l.any p := by
